@@ -108,6 +108,14 @@ func witnesses(ops hx.Counter, withPoll bool) []Case {
 	tag("recovery_rewards_two_halves", runRR(RRParams{Seed: 9171, Snap: 1, Holders: []string{"5000000000000", "5000000000000"}, NBlocks: 24, Fees: rrFees, Claim: 4, Burn: true}, ops))
 	tag("recovery_rewards_three_thirds_default_snap", runRR(RRParams{Seed: 9172, Snap: 1000, Holders: []string{"3333333333333", "3333333333333", "3333333333334"}, NBlocks: 30, Fees: rrFees, Claim: 5}, ops))
 	tag("recovery_rewards_partial_supply_issuer_holds_rest", runRR(RRParams{Seed: 9173, Snap: 1, Holders: []string{"1000000", "2500000000000"}, KeepSelf: true, NBlocks: 20, Fees: rrFees, Claim: 3}, ops))
+	// hook stream: the upgrade BeginBlocker with validators in every status and every vote when the plan becomes due
+	tag("upgrade_all_statuses_non_approving", runUpgradeStates(UpgradeStatesParams{Seed: 9181, Status: []string{"active", "inactive", "paused", "jailed"}, Votes: []int{1, 3, 1, 1}, Instate: true, Skip: true}, ops))
+	tag("upgrade_all_statuses_changed_before_vote", runUpgradeStates(UpgradeStatesParams{Seed: 9182, Status: []string{"active", "jailed", "inactive", "paused"}, Votes: []int{1, 1, 0, 1}, Early: true, Instate: true, Skip: true}, ops))
+	tag("upgrade_inactive_yes_voter_and_no_permission", runUpgradeStates(UpgradeStatesParams{Seed: 9183, Status: []string{"active", "paused", "inactive", "inactive"}, Votes: []int{1, 1, 2, 0}, Instate: false, Skip: false, NoPermA3: true}, ops))
+	// settings driven to their extremes by proposals between blocks; export + re-import mid-history
+	tag("settings_extremes", runSettings(SettingsParams{Seed: 9191, Steps: []string{"MISCHANCE_CONFIDENCE=0", "MAX_MISCHANCE=1", "INACTIVE_RANK_DECREASE_PERCENT=1", "UBI_HARDCAP=0", "MINIMUM_PROPOSAL_END_TIME=1"}}, ops))
+	tag("settings_maxima", runSettings(SettingsParams{Seed: 9192, Steps: []string{"MAX_MISCHANCE=18446744073709551615", "UBI_HARDCAP=18446744073709551615", "MINIMUM_PROPOSAL_END_TIME=18446744073709551615", "DOWNTIME_INACTIVE_DURATION=18446744073709551615", "VOTE_QUORUM=1"}}, ops))
+	tag("export_import_then_hooks", runExportImport(9201, ops))
 	// the sanctioned halt
 	tag("upgrade_halt_sanctioned", runUpgrade(UpgradeParams{Seed: 9061, Instate: false, Skip: false}, ops))
 	tag("upgrade_instate_skip_no_halt", runUpgrade(UpgradeParams{Seed: 9062, Instate: true, Skip: true}, ops))
